@@ -276,7 +276,13 @@ impl Store {
                 let app = self.apps[*c as usize].clone();
                 wt.add_pending_appointment(tid, &app);
                 if let Some(m) = self.model.get_mut(t) {
-                    m.pending.insert(app.locator.to_vec());
+                    // fix bd54552 (C05: exactly one state): an appointment the tower has already answered -- acknowledged or
+                    // rejected -- does not become pending when a repeated request for it fails
+                    if m.receipts.contains_key(&app.locator.to_vec()) || m.invalid.contains(&app.locator.to_vec()) {
+                        self.probe("store_pending_after_answer_ignored");
+                    } else {
+                        m.pending.insert(app.locator.to_vec());
+                    }
                 }
             }
             SOp::Invalid { t, c } => {
